@@ -1,3 +1,247 @@
-(* SingleRoute — see docs/ for the plan of this file. *)
+(* SingleRoute — the "routable" half of C10 (agent p-e2e): every valid path-only pattern, registered
+   alone, is reached by every request obtained by substituting valid values for its wildcards; the
+   lookup returns the pattern and parameters whose substitution reproduces the request, and exactly
+   the substituted values when no catch-all is followed by further pattern text.
+   Derived from EndToEnd2 (tree = map, WF => pwf, M1 = S) and SpecSound (select sound/complete). *)
 From FoxBase Require Import Bytes.
-From FoxRoute Require Import Node Lookup Spec Tree.
+From FoxRoute Require Import Node Lookup Spec SpecFacts Tree MapSpec Corr CorrHist WFDef TreeWF TreeWF2 TreeMap TreeMap2
+  SpecSound SpecSound2 StaticEquiv StaticEquiv2 EndToEnd EndToEnd2.
+Open Scope char_scope.
+Local Notation starts_with := Node.starts_with.
+
+(* ------------------------------------------------------------------ *)
+(* valid substitutions                                                  *)
+(* ------------------------------------------------------------------ *)
+(* one value per wildcard, in pattern order: a parameter value is non-empty and has no '/';
+   a catch-all value is non-empty and, when pattern text follows, neither starts nor ends with '/' *)
+Fixpoint sigma_ok (ts : list token) (sg : list bytes) : Prop :=
+  match ts with
+  | [] => sg = []
+  | TStatic _ :: r => sigma_ok r sg
+  | TParam _ :: r => match sg with v :: sg' => v <> [] /\ ~ In "/" v /\ sigma_ok r sg' | [] => False end
+  | TCatch _ :: r =>
+      match sg with
+      | v :: sg' => v <> [] /\ (r <> [] -> hd "/" v <> "/" /\ last v "/" <> "/") /\ sigma_ok r sg'
+      | [] => False
+      end
+  end.
+
+(* no catch-all is followed by further pattern text *)
+Fixpoint no_mid_catch (ts : list token) : bool :=
+  match ts with
+  | [] => true
+  | TCatch _ :: r => Spec.is_nil r
+  | _ :: r => no_mid_catch r
+  end.
+
+(* in a valid path pattern a wildcard is followed by '/' or by nothing *)
+Fixpoint follow_ok (ts : list token) : bool :=
+  match ts with
+  | [] => true
+  | TStatic _ :: r => follow_ok r
+  | _ :: r => match r with [] => true | TStatic c :: _ => Ascii.eqb c "/" | _ => false end && follow_ok r
+  end.
+
+Lemma tokenize_slash r : tokenize ("/" :: r) = TStatic "/" :: tokenize r.
+Proof. rewrite tokenize_cons. reflexivity. Qed.
+
+Lemma follow_gen : forall n k st, List.length k <= n -> (st = VDef \/ st = VAfter) ->
+  vclosed (fold_left vstep k (false, st)) = true ->
+  follow_ok (tokenize k) = true /\ (st = VAfter -> k = [] \/ exists r, k = "/" :: r).
+Proof.
+  induction n as [|n IH]; intros k st Hl Hs Hc.
+  { destruct k; [split; [reflexivity|left; reflexivity]|simpl in Hl; lia]. }
+  destruct k as [|c r]; [split; [reflexivity|left; reflexivity]|]. simpl in Hl.
+  cbn [fold_left] in Hc.
+  assert (forall nm r2 (w : bytes -> token), (w nm = TParam nm \/ w nm = TCatch nm) ->
+            List.length r2 < n -> vclosed (fold_left vstep r2 (false, VAfter)) = true ->
+            follow_ok (w nm :: tokenize r2) = true) as Hwild.
+  { intros nm r2 w Hw Hl2 Hc2. destruct (IH r2 VAfter) as [H1 H2]; [lia|right; reflexivity|exact Hc2|].
+    assert (match tokenize r2 with [] => true | TStatic c :: _ => Ascii.eqb c "/" | _ => false end = true) as Hn.
+    { destruct (H2 eq_refl) as [->|[r' ->]]; [reflexivity|]. rewrite tokenize_slash. reflexivity. }
+    destruct Hw as [->| ->]; cbn [follow_ok]; rewrite Hn, H1; reflexivity. }
+  destruct Hs as [-> | ->].
+  - split; [|discriminate]. rewrite tokenize_cons.
+    destruct (Ascii.eqb_spec c "{") as [->|N1].
+    + simpl in Hc. destruct (vname_run r false Hc) as [nm [r2 [-> [Hni Hf]]]].
+      rewrite take_name_app by exact Hni. rewrite Hf in Hc.
+      apply (Hwild nm r2 TParam); auto. rewrite app_length in Hl. simpl in Hl. lia.
+    + destruct (Ascii.eqb_spec c "*") as [->|N2].
+      * simpl in Hc. destruct r as [|d r1]; [discriminate|]. simpl in Hc.
+        destruct (Ascii.eqb_spec d "{") as [->|N3]; [|rewrite vbad_abs in Hc; discriminate].
+        destruct (vname_run r1 false Hc) as [nm [r2 [-> [Hni Hf]]]].
+        rewrite take_name_app by exact Hni. rewrite Hf in Hc.
+        apply (Hwild nm r2 TCatch); auto. simpl in Hl. rewrite app_length in Hl. simpl in Hl. lia.
+      * cbn [follow_ok]. apply (IH r VDef); [lia|left; reflexivity|].
+        simpl in Hc. destruct (Ascii.eqb_spec c "/"); [exact Hc|].
+        destruct (Ascii.eqb_spec c "{"); [contradiction|]. destruct (Ascii.eqb_spec c "*"); [contradiction|]. exact Hc.
+  - simpl in Hc. destruct (Ascii.eqb_spec c "/") as [->|N1]; [|rewrite vbad_abs in Hc; discriminate].
+    split; [|intros _; right; eauto]. rewrite tokenize_slash. cbn [follow_ok].
+    apply (IH r VDef); [lia|left; reflexivity|exact Hc].
+Qed.
+
+Lemma valid_path_follow p : valid_patternb p = true -> is_path_pattern p = true ->
+  follow_ok (tokenize p) = true.
+Proof.
+  intros Hv Hp. destruct p as [|c r]; [discriminate|]. simpl in Hp.
+  destruct c as [[|] [|] [|] [|] [|] [|] [|] [|]]; try discriminate. clear Hp.
+  unfold valid_patternb in Hv. apply andb_prop in Hv. destruct Hv as [Hc _]. unfold closed, vrun in Hc.
+  cbn [fold_left] in Hc. change (vstep vinit "/") with (false, VDef) in Hc.
+  rewrite tokenize_slash. cbn [follow_ok]. apply (follow_gen (List.length r) r VDef); auto.
+Qed.
+
+Lemma valid_closed p : valid_patternb p = true -> closed p = true.
+Proof. unfold valid_patternb. intros H. apply andb_prop in H. exact (proj1 H). Qed.
+
+(* ------------------------------------------------------------------ *)
+(* a valid substitution is a match; matches are unique without infix catch-all *)
+(* ------------------------------------------------------------------ *)
+Lemma subst_nil_any sg : subst [] sg = [].
+Proof. reflexivity. Qed.
+
+Lemma follow_next (t : token) r sg : is_wild t = true -> follow_ok (t :: r) = true ->
+  (r = [] /\ subst r sg = []) \/ (r <> [] /\ SpecSound.starts_with "/" (subst r sg)).
+Proof.
+  intros Hw H. destruct t as [c|nm|nm]; [discriminate| |]; cbn [follow_ok] in H; apply andb_prop in H; destruct H as [H _];
+    (destruct r as [|[c|?|?] r']; [left; split; reflexivity| |discriminate|discriminate];
+     right; split; [discriminate|]; apply Ascii.eqb_eq in H; subst c; simpl; eexists; reflexivity).
+Qed.
+
+Lemma sigma_matches : forall ts sg, forallb tok_ok ts = true -> follow_ok ts = true ->
+  sigma_ok ts sg -> Matches ts (subst ts sg) 0 sg.
+Proof.
+  induction ts as [|t r IH]; intros sg Htok Hfol Hsg.
+  - simpl in Hsg. subst sg. constructor.
+  - simpl in Htok. apply andb_prop in Htok. destruct Htok as [Ht Htok].
+    assert (follow_ok r = true) as Hfr.
+    { destruct t; cbn [follow_ok] in Hfol; [exact Hfol| |]; apply andb_prop in Hfol; exact (proj2 Hfol). }
+    destruct t as [c|nm|nm].
+    + simpl in Hsg. simpl. simpl in Ht. unfold sbyte in Ht. apply andb_prop in Ht. destruct Ht as [H1 H2].
+      apply negb_true_iff in H1. apply negb_true_iff in H2. apply Ascii.eqb_neq in H1. apply Ascii.eqb_neq in H2.
+      constructor; try assumption. simpl. apply IH; assumption.
+    + destruct sg as [|v sg']; [destruct Hsg|]. destruct Hsg as (Hv & Hns & Hsg). cbn [subst].
+      constructor; auto.
+      destruct (follow_next (TParam nm) r sg' eq_refl Hfol) as [[_ E]|[_ E]]; [left; exact E|right; exact E].
+    + destruct sg as [|v sg']; [destruct Hsg|]. destruct Hsg as (Hv & Hmid & Hsg). cbn [subst].
+      constructor; auto.
+      destruct (follow_next (TCatch nm) r sg' eq_refl Hfol) as [[_ E]|[Hr E]]; [left; exact E|right].
+      destruct (Hmid Hr) as [Ha Hb]. auto.
+Qed.
+
+Lemma Matches_nil_skip j (s : bytes) vals : Matches [] (skipn j s) 0 vals -> List.length s <= j /\ vals = [].
+Proof.
+  intros M. remember (skipn j s) as q eqn:Eq. inversion M; subst. split; [|reflexivity].
+  apply skipn_nil_len. congruence.
+Qed.
+
+Lemma Matches_unique : forall ts s v1 v2, no_mid_catch ts = true ->
+  Matches ts s 0 v1 -> Matches ts s 0 v2 -> v1 = v2.
+Proof.
+  induction ts as [|t r IH]; intros s v1 v2 Hn M1 M2.
+  - inversion M1; subst. inversion M2; subst. reflexivity.
+  - pose proof (Matches_cons_nonempty _ _ _ _ _ M1) as Hs.
+    apply Matches_inv in M1; [|exact Hs]. apply Matches_inv in M2; [|exact Hs].
+    destruct M1 as [(c1 & t1' & r1 & Ht1 & Hs1 & _ & _ & M1)
+                   |[(n1 & t1' & vals1 & Ht1 & Hv1 & _ & M1)
+                    |(n1 & t1' & j1 & vals1 & Ht1 & _ & Hv1 & Hj1 & _ & M1)]];
+    destruct M2 as [(c2 & t2' & r2 & Ht2 & Hs2 & _ & _ & M2)
+                   |[(n2 & t2' & vals2 & Ht2 & Hv2 & _ & M2)
+                    |(n2 & t2' & j2 & vals2 & Ht2 & _ & Hv2 & Hj2 & _ & M2)]];
+    rewrite Ht1 in Ht2; try discriminate; injection Ht2 as ? ?; injection Ht1 as ? ?; subst.
+    + injection Hs2 as <-. simpl in Hn, M1, M2. eapply IH; eauto.
+    + simpl in Hn. simpl in M1, M2. f_equal. eapply IH; eauto.
+    + simpl in Hn. destruct t2' as [|? ?]; [|discriminate].
+      apply Matches_nil_skip in M1. apply Matches_nil_skip in M2. destruct M1 as [E1 ->]. destruct M2 as [E2 ->].
+      assert (j1 = j2) by lia. subst. reflexivity.
+Qed.
+
+(* ------------------------------------------------------------------ *)
+(* the specification on a single registered pattern                      *)
+(* ------------------------------------------------------------------ *)
+Lemma spec_single p host req sg : is_path_pattern p = true -> Matches (tokenize p) req 0 sg ->
+  exists vals, sres_direct (spec_lookup [p] host req) = Some (p, name_values p vals) /\
+               Matches (tokenize p) req 0 vals /\
+               map fst (name_values p vals) = wildcard_names (tokenize p) /\
+               map snd (name_values p vals) = vals.
+Proof.
+  intros Hp HM. rewrite spec_lookup_direct_path_only by (constructor; [exact Hp|constructor]).
+  unfold spec_direct. destruct (select_in [p] host req false) as [[p' vals]|] eqn:E.
+  - pose proof (select_in_sound _ _ _ _ _ _ E) as D.
+    destruct (DirectMatch_meaning _ _ _ _ _ _ D) as (Hin & E1 & E2 & _).
+    destruct D as (_ & _ & _ & M). simpl in M. destruct Hin as [<-|[]]. exists vals. auto.
+  - exfalso. apply (select_in_complete [p] host req false p sg); [|exact E].
+    split; [left; reflexivity|]. split; [exact Hp|]. split; [discriminate|exact HM].
+Qed.
+
+(* ------------------------------------------------------------------ *)
+(* registering one route in the empty router                             *)
+(* ------------------------------------------------------------------ *)
+Lemma Rel_empty : Rel empty_txn [].
+Proof. exact (proj1 (proj2 SRel_init)). Qed.
+
+Lemma insert_empty m ri : valid_rinfo ri ->
+  exists t', insert empty_txn m ri = ROk t' /\ WF_txn t' /\
+             Rel t' [((m, rpat (ri_route ri)), rid (ri_route ri))].
+Proof.
+  intros Hv. pose proof (insert_refines empty_txn [] m ri WF_empty Rel_empty Hv) as H.
+  cbn [m_handle negb mfind conflicts_of filter map app] in H.
+  destruct (insert empty_txn m ri) as [t'| | |]; try contradiction. exists t'. auto.
+Qed.
+
+Lemma reg_single m p id : reg_patterns [((m, p), id)] m = [p].
+Proof. unfold reg_patterns. simpl. rewrite bytes_eqb_refl. reflexivity. Qed.
+
+(* ------------------------------------------------------------------ *)
+(* C10 "routable": a valid path-only pattern, registered alone, is reached by every valid
+   substitution of its wildcards                                        *)
+(* ------------------------------------------------------------------ *)
+Theorem single_route_thm m ri sg host :
+  let p := rpat (ri_route ri) in
+  let req := subst (tokenize p) sg in
+  valid_rinfo ri -> is_path_pattern p = true -> sigma_ok (tokenize p) sg ->
+  okpath req = true \/ nocatch (tokenize p) = true ->
+  exists t', insert empty_txn m ri = ROk t' /\
+    forall fuel, e2e_fuel req (t_roots t') m <= fuel ->
+    exists ps, direct_obs (roots_lookup fuel (t_roots t') m host req false [] []) = Some (p, ps) /\
+               map fst ps = wildcard_names (tokenize p) /\
+               subst (tokenize p) (map snd ps) = req /\
+               (no_mid_catch (tokenize p) = true -> map snd ps = sg).
+Proof.
+  intros p req Hv Hp Hsg Hside. destruct (insert_empty m ri Hv) as (t' & Hi & Hwf & Hrel). fold p in Hrel.
+  exists t'. split; [exact Hi|]. intros fuel Hfuel.
+  pose proof (valid_closed p (proj1 Hv)) as Hcl.
+  assert (Matches (tokenize p) req 0 sg) as HM.
+  { apply sigma_matches; [exact (proj2 (valid_render p Hcl))|apply valid_path_follow; [exact (proj1 Hv)|exact Hp]|exact Hsg]. }
+  destruct (spec_single p host req sg Hp HM) as (vals & Hs & HMv & E1 & E2).
+  assert (forall q, In q (method_patterns (t_roots t') m) -> q = p) as Honly.
+  { intros q Hq. apply (Rel_patterns _ _ m Hwf Hrel) in Hq. rewrite reg_single in Hq. destruct Hq as [<-|[]]. reflexivity. }
+  exists (name_values p vals). split.
+  - rewrite (WF_M1_eq_Spec t' m host req fuel Hwf).
+    + rewrite (Rel_spec_lookup t' _ m host req Hwf Hrel), reg_single. exact Hs.
+    + intros q Hq. rewrite (Honly q Hq). exact Hp.
+    + destruct Hside as [H|H]; [left; exact H|right]. apply WF_plain_method; [exact Hwf|].
+      intros q Hq. rewrite (Honly q Hq). exact H.
+    + exact Hfuel.
+  - split; [exact E1|]. rewrite E2. split; [eapply Matches_subst; eauto|].
+    intros Hn. eapply Matches_unique; eauto.
+Qed.
+
+(* the same through the history interface: one Handle on a fresh router *)
+Theorem single_route_history_thm o sg host :
+  let p := h_pat o in
+  let req := subst (tokenize p) sg in
+  h_kind o = KHandle -> valid_method_handle (h_method o) = true -> h_valid o = true -> hop_ok o ->
+  is_path_pattern p = true -> sigma_ok (tokenize p) sg ->
+  okpath req = true \/ nocatch (tokenize p) = true ->
+  forall fuel, e2e_fuel req (t_roots (final_txn [o])) (h_method o) <= fuel ->
+  exists ps, direct_obs (roots_lookup fuel (t_roots (final_txn [o])) (h_method o) host req false [] []) = Some (p, ps) /\
+             map fst ps = wildcard_names (tokenize p) /\
+             subst (tokenize p) (map snd ps) = req /\
+             (no_mid_catch (tokenize p) = true -> map snd ps = sg).
+Proof.
+  intros p req Hk Hm Hval Hok Hp Hsg Hside.
+  destruct (single_route_thm (h_method o) (hop_ri o) sg host (Hok Hval) Hp Hsg Hside) as (t' & Hi & H).
+  assert (final_txn [o] = t') as ->; [|exact H].
+  unfold final_txn, hrun_state. simpl. unfold hstep. rewrite Hk, Hm, Hval. simpl.
+  unfold hop_ri in Hi. change (visible init_hstate) with empty_txn. rewrite Hi. reflexivity.
+Qed.
